@@ -18,7 +18,7 @@ def main_():
     data = json.load(open(path))
     case = data["case"] if "case" in data else data
 
-    def bad(c):
+    def bad1(c):
         try:
             oc = prop.check(c)
         except core.Inconclusive:
@@ -26,6 +26,9 @@ def main_():
         except Exception:
             return False
         return any(v.sig.startswith(prefix) for v in oc.violations)
+
+    def bad(c):      # twice: a transient failure (library rebuilt under our feet, load) must not steer the minimisation
+        return bad1(c) and bad1(c)
     assert bad(case), "the case does not fail with that signature"
     changed = True
     while changed:
